@@ -55,17 +55,25 @@ def _run(db, ctx):
     # R3.3 seed
     ok_seed = False
     if len(seed) == 1:
+        from lm import reduce as RD
         e = norm(R.call(seed[0][2]))
-        b = m(('call~', 'Iterator::max_by', (('call~', 'Iterator::filter', (('call~', 'mem::take', ('$h',)), '$clo')), '_')), e)
-        if b and S.self_field(b['$h'], 'hits'):
-            clos = [c for c in db.fns.values() if c.kind == 'Closure' and c.raw.get('iparent') == f.path]
-            for c in clos:
-                ce = common.return_expr_single_path_allow(c)
-                if ce is None:
-                    continue
-                cn = norm(ce)
-                if cn[0] == 'bin' and cn[1] in ('Ge', 'FGe') and cn[2][0] == 'fld' and cn[2][2] == 'score' and 'threshold' in (c.raw.get('upvars') and c.raw['upvars'][0]['name'] or ''):
-                    ok_seed = True
+        # max_by(natural order) over the buffered hits that still reach the threshold; the buffer is emptied (mem::take / drain(..))
+        b = m(('call~', 'Iterator::max_by', (('call~', 'Iterator::filter', ('$src', '$clo')), '$cmp')), e)
+        if b is not None:
+            src = b['$src']
+            emptied = m(('call~', 'mem::take', ('$h',)), src) or m(('call~', 'Vec::drain', ('$h', '_')), src) or \
+                m(('call~', 'mem::replace', ('$h', ('call~', ('Vec::new', 'Default::default'), ()))), src)
+            if emptied is not None and S.self_field(emptied['$h'], 'hits'):
+                hit = ('sym', 'hit')
+                cond = RD.apply_fn(db, b['$clo'], [hit])
+                rel = G.as_relation(cond, True) if cond is not None else None
+                keep = rel is not None and ((rel[0] == 'ge' and norm(rel[1]) == ('fld', hit, 'score') and S.self_field(rel[2], 'threshold')) or
+                                            (rel[0] == 'le' and norm(rel[2]) == ('fld', hit, 'score') and S.self_field(rel[1], 'threshold')))
+                x_, y_ = ('sym', 'x'), ('sym', 'y')
+                cmp_ = RD.apply_fn(db, b['$cmp'], [x_, y_])
+                natural = cmp_ is not None and (m(('call~', ('Option::unwrap', 'Option::expect'), (('call~', '::partial_cmp', (x_, y_)),)), cmp_) is not None or
+                                                m(('call~', ('Option::unwrap', 'Option::expect'), (('call~', '::partial_cmp', (('fld', x_, 'score'), ('fld', y_, 'score'))),)), cmp_) is not None)
+                ok_seed = keep and natural
     if ok_seed:
         ctx.ok('R3.3', f, 'best seeded from take(self.hits) filtered by hit.score >= self.threshold')
     else:
